@@ -289,7 +289,8 @@ class Cache:
             ):
                 return "left / full join with a table containing a constant column"
 
-            if any(self.cols[uid].ftype() == Ftype.WINDOW for uid in self.uuid_to_name.keys()):
+            # also hidden window columns: they stay usable through their references after the join
+            if any(col.ftype() == Ftype.WINDOW for col in self.cols.values()):
                 return "join with a table containing window function expression"
 
             if any(
